@@ -125,7 +125,8 @@ impl Next<f64> for RelativeStrengthIndex {
             // neither gains nor losses left in the averages (flat prices)
             return 50.0;
         }
-        100.0 * up_ema / total
+        // divide first: 100.0 * up_ema overflows for gains above ~1.8e306
+        100.0 * (up_ema / total)
     }
 }
 
